@@ -307,6 +307,8 @@ pub struct GenOpts {
     /// dependency-chain profile: mostly `mix` calls on 4 pre-populated slots, half of them with a
     /// data-dependent write location (write sets that change between incarnations)
     pub chain: bool,
+    /// a third of the transactions read the fee recipient's balance (coinbase probe)
+    pub cb: bool,
 }
 
 /// A conflict-heavy block: few slots, data-dependent slot choice, shared callers (nonce chains).
@@ -338,7 +340,7 @@ pub fn gen_block(rng: &mut Rng, n_txs: usize, opts: GenOpts) -> (World, BlockSpe
         let nonce = *nonces.get(&caller).unwrap_or(&0);
         let gas_price = basefee as u128 + rng.below(3) as u128;
         let mut tx = TxEnv { caller, gas_limit: 300_000, gas_price, nonce, ..Default::default() };
-        let kind = if opts.chain && rng.chance(5, 6) { 0 } else { rng.below(100) };
+        let kind = if opts.cb && rng.chance(1, 3) { 70 } else if opts.chain && rng.chance(5, 6) { 0 } else { rng.below(100) };
         let mut valid = true;
         if kind < 45 {
             let a = rng.below(4);
